@@ -37,39 +37,40 @@ VARIABLES
     rounds,
     \* history, for the properties
     tw,        \* when the current / last wait started
-    done,      \* <<time the last wait ended, cause, time it had started>>
+    done,      \* <<time the last wait ended, cause, time it had started, its round>>
     nackT,     \* instants at which the expected NACK was processed
-    ackT       \* instants at which the expected ACK was processed
+    ackT,      \* instants at which the expected ACK was processed
+    doneT      \* <<instant, round>> at which a wait ended by timeout or cancel
 
-vars == <<now, state, expA, expN, sloc, sDeadline, ps, wokenP, quit, rounds, tw, done, nackT, ackT>>
+vars == <<now, state, expA, expN, sloc, sDeadline, ps, wokenP, quit, rounds, tw, done, nackT, ackT, doneT>>
 
 Init == /\ now = 0 /\ state = "idle" /\ expA = 0 /\ expN = 0 /\ sloc = "run"
         /\ sDeadline = 0 /\ ps = {} /\ wokenP = 0 /\ quit = FALSE /\ rounds = 0
-        /\ tw = 0 /\ done = <<-1, "none", 0>> /\ nackT = {} /\ ackT = {}
+        /\ tw = 0 /\ done = <<-1, "none", 0, 0>> /\ nackT = {} /\ ackT = {} /\ doneT = {}
 
 \* a timer that is due fires, and a woken goroutine runs, before time moves on
 Due == \/ (sloc = "waiting" /\ sDeadline <= now) \/ (\E f \in ps : f <= now)
        \/ sloc = "woken" \/ wokenP > 0
 Tick == /\ ~Due /\ now < MaxTime /\ now' = now + 1
-        /\ UNCHANGED <<state, expA, expN, sloc, sDeadline, ps, wokenP, quit, rounds, tw, done, nackT, ackT>>
+        /\ UNCHANGED <<state, expA, expN, sloc, sDeadline, ps, wokenP, quit, rounds, tw, done, nackT, ackT, doneT>>
 
 \* queue.resend -> initResendUpTo(top)
 InitResend(top) ==
     /\ sloc = "run" /\ ~quit /\ rounds < MaxRounds
     /\ state' = "resending" /\ expA' = (top + SeqS - 1) % SeqS /\ expN' = top
     /\ sloc' = "sending" /\ rounds' = rounds + 1
-    /\ UNCHANGED <<now, sDeadline, ps, wokenP, quit, tw, done, nackT, ackT>>
+    /\ UNCHANGED <<now, sDeadline, ps, wokenP, quit, tw, done, nackT, ackT, doneT>>
 \* the window has been sent again: waitForSync
 StartWait ==
     /\ sloc = "sending"
     /\ sloc' = "waiting" /\ sDeadline' = now + 3 * RT /\ tw' = now
-    /\ UNCHANGED <<now, state, expA, expN, ps, wokenP, quit, rounds, done, nackT, ackT>>
+    /\ UNCHANGED <<now, state, expA, expN, ps, wokenP, quit, rounds, done, nackT, ackT, doneT>>
 
 \* The non-blocking send on the cancel channel, at this instant: it reaches S
 \* if S is blocked in waitForSync (and is not the sender), or one listening P,
 \* or nobody if nobody listens.
-ToS == /\ sloc = "waiting" /\ sloc' = "woken" /\ done' = <<now, "cancel", tw>>
-       /\ UNCHANGED <<ps, wokenP>>
+ToS == /\ sloc = "waiting" /\ sloc' = "woken" /\ done' = <<now, "cancel", tw, rounds>>
+       /\ doneT' = doneT \cup {<<now, rounds>>}
 ToP == /\ \E f \in ps : ps' = ps \ {f}
        /\ wokenP' = wokenP + 1
 ToNobody == ps = {} /\ UNCHANGED <<ps, wokenP>>
@@ -77,27 +78,28 @@ ToNobody == ps = {} /\ UNCHANGED <<ps, wokenP>>
 \* R: syncer.processACK / processNACK
 RAck(q) == /\ state = "resending" /\ q = expA /\ ~quit
            /\ ps' = ps \cup {now + RT} /\ ackT' = ackT \cup {now}
-           /\ UNCHANGED <<now, state, expA, expN, sloc, sDeadline, wokenP, quit, rounds, tw, done, nackT>>
+           /\ UNCHANGED <<now, state, expA, expN, sloc, sDeadline, wokenP, quit, rounds, tw, done, nackT, doneT>>
 RNack(q) == /\ state = "resending" /\ q = expN /\ ~quit
             /\ state' = "idle" /\ nackT' = nackT \cup {now}
-            /\ \/ ToS
-               \/ ToP /\ UNCHANGED <<sloc, done>>
-               \/ sloc # "waiting" /\ ToNobody /\ UNCHANGED <<sloc, done>>
+            /\ \/ ToS /\ UNCHANGED <<ps, wokenP>>
+               \/ ToP /\ UNCHANGED <<sloc, done, doneT>>
+               \/ sloc # "waiting" /\ ToNobody /\ UNCHANGED <<sloc, done, doneT>>
             /\ UNCHANGED <<now, expA, expN, sDeadline, quit, rounds, tw, ackT>>
 
 \* S, woken or timed out, calls reset(): idle, and signals again (to a P)
 SReset == /\ sloc = "woken" /\ sloc' = "run" /\ state' = "idle"
           /\ (ToP \/ ToNobody)
-          /\ UNCHANGED <<now, expA, expN, sDeadline, quit, rounds, tw, done, nackT, ackT>>
+          /\ UNCHANGED <<now, expA, expN, sDeadline, quit, rounds, tw, done, nackT, ackT, doneT>>
 STimeout == /\ sloc = "waiting" /\ sDeadline <= now
-            /\ sloc' = "run" /\ done' = <<now, "timeout", tw>> /\ state' = "idle"
+            /\ sloc' = "run" /\ done' = <<now, "timeout", tw, rounds>> /\ state' = "idle"
+            /\ doneT' = doneT \cup {<<now, rounds>>}
             /\ (ToP \/ ToNobody)
             /\ UNCHANGED <<now, expA, expN, sDeadline, quit, rounds, tw, nackT, ackT>>
 \* a woken P calls reset() and passes the signal on
 PReset == /\ wokenP > 0 /\ state' = "idle"
           /\ \/ ToS /\ wokenP' = wokenP - 1 /\ UNCHANGED ps
-             \/ (\E f \in ps : ps' = ps \ {f}) /\ UNCHANGED <<wokenP, sloc, done>>
-             \/ sloc # "waiting" /\ ps = {} /\ wokenP' = wokenP - 1 /\ UNCHANGED <<ps, sloc, done>>
+             \/ (\E f \in ps : ps' = ps \ {f}) /\ UNCHANGED <<wokenP, sloc, done, doneT>>
+             \/ sloc # "waiting" /\ ps = {} /\ wokenP' = wokenP - 1 /\ UNCHANGED <<ps, sloc, done, doneT>>
           /\ UNCHANGED <<now, expA, expN, sDeadline, quit, rounds, tw, nackT, ackT>>
 \* a P's own timer: resets the syncer if a resend round is (still or again) on
 PTimeout == /\ \E f \in ps :
@@ -106,16 +108,16 @@ PTimeout == /\ \E f \in ps :
                     THEN /\ state' = "idle"
                          /\ \/ ToS /\ ps' = ps \ {f} /\ UNCHANGED wokenP
                             \/ /\ \E g \in ps \ {f} : ps' = (ps \ {f}) \ {g}
-                               /\ wokenP' = wokenP + 1 /\ UNCHANGED <<sloc, done>>
+                               /\ wokenP' = wokenP + 1 /\ UNCHANGED <<sloc, done, doneT>>
                             \/ /\ sloc # "waiting" /\ ps \ {f} = {} /\ ps' = {}
-                               /\ UNCHANGED <<wokenP, sloc, done>>
-                    ELSE ps' = ps \ {f} /\ UNCHANGED <<state, wokenP, sloc, done>>
+                               /\ UNCHANGED <<wokenP, sloc, done, doneT>>
+                    ELSE ps' = ps \ {f} /\ UNCHANGED <<state, wokenP, sloc, done, doneT>>
             /\ UNCHANGED <<now, expA, expN, sDeadline, quit, rounds, tw, nackT, ackT>>
 
 Quit == /\ ~quit /\ quit' = TRUE /\ ps' = {} /\ wokenP' = 0
         /\ sloc' = "run"
-        /\ done' = IF sloc = "waiting" THEN <<now, "quit", tw>> ELSE done
-        /\ UNCHANGED <<now, state, expA, expN, sDeadline, rounds, tw, nackT, ackT>>
+        /\ done' = IF sloc = "waiting" THEN <<now, "quit", tw, rounds>> ELSE done
+        /\ UNCHANGED <<now, state, expA, expN, sDeadline, rounds, tw, nackT, ackT, doneT>>
 
 Next == \/ Tick \/ StartWait \/ SReset \/ PReset \/ STimeout \/ PTimeout \/ Quit
         \/ \E top \in 0..(SeqS - 1) : InitResend(top)
@@ -134,6 +136,10 @@ EarlyOnlyWithCause ==
         /\ done[1] >= done[3]
         /\ \/ done[1] \in nackT
            \/ \E a \in ackT : done[1] = a + RT
+           \* a goroutine that was woken when the wait of an earlier round
+           \* ended passes the signal on; if the next wait has begun at that
+           \* very instant it ends at once
+           \/ \E d \in doneT : d[1] = done[1] /\ d[2] < done[4] /\ done[1] = done[3]
 \* the goroutines started for expected ACKs end by their timeout at the latest
 NoLingeringP == \A f \in ps : now <= f
 TypeOK == /\ state \in {"idle", "resending"} /\ sloc \in {"run", "sending", "waiting", "woken"}
